@@ -332,9 +332,9 @@ def batches(tc, L, P, rpc, ops, size=400):
         yield {"type": tc, "L": L, "P": P, "rpc": rpc, "ops": ops[i : i + size]}
 
 
-def depth1_ops(L, P, tier):
+def depth1_ops(L, P, tier, full_product=False):
     rows = full_alphabet(L)
-    cols = full_alphabet(P) if tier == "thorough" else representatives(P)
+    cols = full_alphabet(P) if full_product else representatives(P)
     ops = [["isel", r, c] for r in rows for c in cols]
     # columns alone get the full alphabet in both tiers
     ops += [["isel", None, c] for c in full_alphabet(P)]
@@ -360,7 +360,9 @@ def plan(tier):
     for tc, L, P in geos:
         rpcs = sorted({1, 2, L + 1}) if tier == "quick" else list(range(1, L + 2))
         for rpc in rpcs:
-            cases += list(batches(tc, L, P, rpc, depth1_ops(L, P, tier)))
+            # the full rows x columns cross product (8e5 expressions) only for two geometries in the thorough tier
+            full = tier == "thorough" and (tc, L, P) in (("IU2", 4, 3), ("C*8", 3, 1)) and rpc in (1, 2, L + 1)
+            cases += list(batches(tc, L, P, rpc, depth1_ops(L, P, tier, full), size=400 if not full else 4000))
     return cases
 
 
